@@ -116,6 +116,15 @@ impl Report {
         self.extra.insert(k.to_string(), json!(cur + n));
     }
 
+    /// keeps the maximum (keys starting with "max_" are merged by maximum, not by sum)
+    pub fn maxset(&mut self, k: &str, n: u64) {
+        debug_assert!(k.starts_with("max_"));
+        let cur = self.extra.get(k).and_then(|v| v.as_u64()).unwrap_or(0);
+        if n > cur {
+            self.extra.insert(k.to_string(), json!(n));
+        }
+    }
+
     /// merge a worker's partial report into this one
     pub fn merge(&mut self, other: Report) {
         self.evaluations += other.evaluations;
@@ -126,7 +135,11 @@ impl Report {
         for (k, v) in other.extra {
             match (self.extra.get(&k).cloned(), &v) {
                 (Some(Value::Number(a)), Value::Number(b)) if a.is_u64() && b.is_u64() => {
-                    let s = a.as_u64().unwrap() + b.as_u64().unwrap();
+                    let s = if k.starts_with("max_") {
+                        a.as_u64().unwrap().max(b.as_u64().unwrap())
+                    } else {
+                        a.as_u64().unwrap() + b.as_u64().unwrap()
+                    };
                     self.extra.insert(k, json!(s));
                 }
                 (Some(Value::Object(mut a)), Value::Object(b)) => {
